@@ -44,6 +44,8 @@ Latitude (the property leaves these open; every admissible answer is accepted)
     of the variant); that refusal is accepted, only returned locations are compared.
   * incorporate.cds-frame is evaluated only when the reference CDS itself reads as "spliced sequence minus start offset,
     whole codons" and, for a start offset 1/2, no variant touches the first three 5' bases and the 5' exon keeps >= 3 bases.
+  * A haplotype whose alternative sequence is empty (the variants delete the whole reference / chunk) is not judged: an
+    empty Sequence is falsy, BioCantor then reports "no sequence" (NullSequenceException) - degenerate, outside the claim.
   * VCF: order of collections and of variants inside a collection is free; records are passed grouped by CHROM; PS is
     either an int attribute or absent (what a FORMAT column without PS gives); nothing is claimed for PS=None.
 
@@ -143,6 +145,8 @@ def _rand_hap_case(rng, tier):
     start = rng.choice([1, 7, 100, 1000, 131070]) if chunk else 0
     k = rng.choice([1, 2, 2, 3, 3, 4]) if n >= 12 else rng.choice([1, 2])
     edits = G.rand_edits(rng, seq, k)
+    while not EM.alt_string(seq, edits):      # a haplotype that deletes the whole reference is not judged (see latitude)
+        edits = G.rand_edits(rng, seq, k)
     order = list(range(k))
     rng.shuffle(order)
     locs = []
@@ -652,6 +656,9 @@ def _check_aggregates(ctx, hap, feats, txs, specs_f, specs_t):
 
 
 def _run_hap(case, ctx):
+    if not EM.alt_string(case["seq"], case["edits"]):
+        ctx.bump("empty-haplotype-not-judged")
+        return
     hap = _Hap(case)
     _check_alt(ctx, hap)
     ctx.note(("hap", hap.chunk, tuple(G.edit_kind(hap.seq, e) for e in hap.H.edits)), nontrivial=False,
@@ -696,6 +703,9 @@ def _run_hap(case, ctx):
 
 
 def _run_sweep(case, ctx):
+    if not EM.alt_string(case["seq"], case["edits"]):
+        ctx.bump("empty-haplotype-not-judged")
+        return
     hap = _Hap(case)
     _check_alt(ctx, hap)
     n = len(hap.seq)
